@@ -15,6 +15,9 @@ CLAIMED = {
  "C20": ("Hypothesis property-based testing over merge histories (stateful in effect: invariant after every step); oracle = PE interpreter vs kernel body on corner + drawn data vectors, count agreement across APIs; small alphabet enumerated exhaustively",
          "Generated histories of 1..5 (thorough 1..8) kernels are merged with the real encode/combine API; after every merge every kernel merged so far is decoded and the merged PE, configured with the decoded switches, is evaluated against the kernel's own body. Exploration level with an exhaustive small sub-space.",
          TRUST + " PE semantics (choose index, mux polarity) taken from the repository's own finalize-phs-to-hw lowering; decode's exponential search is cut at 11 muxes.", "4/C20"),
+ "C04": ("Hypothesis property-based testing; oracle = translation check by differential execution (field-level CSR machine vs address-level machine decoding the emitted inline asm, expectation derived from the accfg.accelerator op) + enumerated register-map invariants",
+         "(b) Generated accfg programs over the registered accelerators (real field names; after trace-states/dedup/overlap so setups are partial and state crosses loops and ifs) are lowered with convert-accfg-to-csr; field-level and lowered programs are executed and the csrw/csrr/RoCC event sequence must be exactly what the declared register map prescribes; no accfg op or state value may survive. (a) Register maps of generated and enumerated accelerator configurations (alu option x dimension grid, gemmx m,n,k grid and from_config, xDMA option subsets, PHS switch counts) are checked for name agreement and injectivity incl. barrier and reserved slots. Exploration level with enumerated finite sub-spaces.",
+         TRUST + " Await epilogues and reserved slots are taken from the repository's own docstrings; two known-finding signatures cover the documented RoCC limitation (partner half not statically known).", "4/C04"),
  "C06": ("Hypothesis property-based testing of generated accfg programs; oracle = differential execution (deduplicated input vs after accfg-config-overlap) on the CSR machine + own SSA dominance walk",
          "Generated programs are traced and deduplicated with the real passes (the form the property names), then accfg-config-overlap is applied; both are executed for 3 input vectors each. Launch/await/call order, launch values and the registers each launch observes must agree; a use of a not-yet-available value is detected statically (dominance walk) and dynamically. Exploration level.",
          TRUST + " Interpreter + CSRMachine; xDSL 0.70 verify() has no dominance check, so the check's own walk is trusted for availability.", "4/C06"),
